@@ -72,7 +72,7 @@ theorem inv_created_crashed (cfg : Cfg) : Inv cfg { phase := .crashed } created.
 /-- the invariant of the machine with the creation in front; nothing has been issued while the DB is created -/
 def BigInv (cfg : Cfg) : Big → Prop
   | .creating pc d => CDisk pc d
-  | .db s d => Inv cfg s d
+  | .db s d => InvL cfg s d
 
 theorem synced_setMeta {d : Disk} (h : CDisk .synced d) : d.apply (.setMeta 1) = created.2 := by
   obtain ⟨h1, h2, h3, h4⟩ := h
@@ -127,7 +127,7 @@ theorem bigInv_cstep {cfg : Cfg} {pc : CPc} {d : Disk} (h : CDisk pc d) {o : Out
         reduceCtorEq] at hs
       subst hs
       rw [hsm]
-      exact inv_created cfg
+      exact ⟨inv_created cfg, Or.inl rfl⟩
     | failNoEffect =>
       simp only [Outcome.failed, Disk.exec, if_true] at hs
       have A : BigInv cfg (Big.creating CPc.idle d) := CDisk.toIdle (pc := .synced) ⟨h1, h2, h3, h4⟩
@@ -146,14 +146,14 @@ theorem bigInv_cstep {cfg : Cfg} {pc : CPc} {d : Disk} (h : CDisk pc d) {o : Out
       simp only [Option.some.injEq] at hs
       subst hs
       rw [hsm]
-      exact inv_created_crashed cfg
+      exact ⟨inv_created_crashed cfg, Or.inl rfl⟩
 
 theorem bigInv_init0 (cfg : Cfg) : BigInv cfg init0 := ⟨rfl, rfl, rfl, Or.inl rfl⟩
 
 /-- the invariant along a run of the machine with the creation in front: `P` are the admitted faults of the DB's
     actions (`hstep`: they preserve the invariant of the machine), `Q` those of the creation -/
 theorem bigInv_run {cfg : Cfg} {P : St × Disk → Act → Bool} {Q : CPc → Outcome → Bool → Bool}
-    (hstep : ∀ s d a s' d', Inv cfg s d → P (s, d) a = true → step cfg s d a = some (s', d') → Inv cfg s' d')
+    (hstep : ∀ s d a s' d', InvL cfg s d → P (s, d) a = true → step cfg s d a = some (s', d') → InvL cfg s' d')
     (hQ : ∀ pc o gm, Q pc o gm = true → pc = .synced → o = .failEffect →
       (cfg.cleanupChecksCurrent && (if gm then cfg.cleanupKeepsWhenGetMetaFails else true)) = true)
     {b b' : Big} (h : BigInv cfg b) (xs : List BAct)
@@ -198,6 +198,6 @@ theorem BigInv.open_ok {cfg : Cfg} (hn : cfg.failedRecordLeavesNoTrace = true) (
   | creating pc d =>
     refine ⟨freshR, (CDisk.crash h ch).open_fresh hc, ?_⟩
     constructor <;> intro g hg <;> cases hg
-  | db s d => exact ((h : Inv cfg s d).disk.crash hn ch).open_ok
+  | db s d => exact ((h : InvL cfg s d).1.disk.crash hn ch).open_ok
 
 end GoLevel.Dur
